@@ -179,6 +179,9 @@ void *cmi_coroutine_start(struct cmi_coroutine *cp, void *msg)
     return ret;
 }
 
+/* The common part of transfer, resume, yield, and exit, defined below */
+static void *coroutine_switch(struct cmi_coroutine *to, void *msg, bool activates);
+
 /*
  * cmi_coroutine_exit - End the currently executing coroutine, storing its
  * return value in the coroutine struct. Cannot be the main coroutine.
@@ -198,7 +201,7 @@ void cmi_coroutine_exit(void *retval)
 
     cp->exit_value = retval;
     cp->status = CMI_COROUTINE_FINISHED;
-    cmi_coroutine_transfer(cp->parent, retval);
+    (void)coroutine_switch(cp->parent, retval, false);
 }
 
 /*
@@ -221,16 +224,16 @@ void cmi_coroutine_stop(struct cmi_coroutine *cp, void *retval)
 }
 
 /*
- * cmi_coroutine_transfer - Symmetric (and general) coroutine pattern,
- * transferring control to whatever coroutine is given, with arg as the
- * value to be returned from the other side of the transfer call.
- *
- * Returns whatever return value the other coroutine passed back as the
- * argument in its transfer call back to this one. Control may have passed
- * through several other coroutines in the meantime, may not be returning
- * from the one we just switched into.
+ * coroutine_switch - The common part of transfer, resume, yield, and exit.
+ * Only a coroutine that is activated on purpose (started, resumed, transferred
+ * to) gets a new caller. One that merely gets control back because the coroutine
+ * it had activated yields or ends keeps the caller it had: its own next yield
+ * answers whoever resumed it, not the coroutine that just yielded to it or
+ * ended, which may not even be running any more.
  */
-extern void *cmi_coroutine_transfer(struct cmi_coroutine *to, void *msg)
+static void *coroutine_switch(struct cmi_coroutine *to,
+                              void *msg,
+                              const bool activates)
 {
     cmb_assert_release(to != NULL);
     cmb_assert_release(to->status == CMI_COROUTINE_RUNNING);
@@ -243,7 +246,10 @@ extern void *cmi_coroutine_transfer(struct cmi_coroutine *to, void *msg)
     /* May pass through here on its way out from cmi_coroutine_exit */
     cmb_assert_release((from->status == CMI_COROUTINE_RUNNING)
                     || (from->status == CMI_COROUTINE_FINISHED));
-    to->caller = from;
+    if (activates) {
+        to->caller = from;
+    }
+
     coroutine_current = to;
 
     /* The actual context switch happens in assembly */
@@ -258,6 +264,21 @@ extern void *cmi_coroutine_transfer(struct cmi_coroutine *to, void *msg)
     return ret;
 }
 
+/*
+ * cmi_coroutine_transfer - Symmetric (and general) coroutine pattern,
+ * transferring control to whatever coroutine is given, with arg as the
+ * value to be returned from the other side of the transfer call.
+ *
+ * Returns whatever return value the other coroutine passed back as the
+ * argument in its transfer call back to this one. Control may have passed
+ * through several other coroutines in the meantime, may not be returning
+ * from the one we just switched into.
+ */
+extern void *cmi_coroutine_transfer(struct cmi_coroutine *to, void *msg)
+{
+    return coroutine_switch(to, msg, true);
+}
+
 /* Asymmetric coroutine pattern yield/resume, called from within coroutine */
 void *cmi_coroutine_yield(void *msg)
 {
@@ -269,7 +290,7 @@ void *cmi_coroutine_yield(void *msg)
     cmb_assert_release(to != NULL);
     cmb_assert_release(to->status == CMI_COROUTINE_RUNNING);
 
-    void *ret = cmi_coroutine_transfer(to, msg);
+    void *ret = coroutine_switch(to, msg, false);
 
     /* Possibly much later */
     return ret;
